@@ -144,7 +144,28 @@ def pool_value(cid):
         7: b'\x00' * 5000,
         8: list(range(40)),
     }
+    if cid in BIG:
+        return _sized_bytes(BIG[cid])
     return pool[cid]
+
+
+# values whose serialisation has exactly this many bytes: around and beyond the 1 MiB read-block size that
+# block-wise digest implementations use (content ids 9..12)
+MIB = 1 << 20
+BIG = {9: MIB - 1, 10: MIB + 1, 11: 2 * MIB + 3, 12: MIB}
+_OVERHEAD = []
+
+
+def _sized_bytes(total):
+    """a bytes datum d such that pickle.dumps(Val(d), HIGHEST_PROTOCOL) is `total` bytes long; the fill is not
+    periodic in the block size, so that any block read in isolation differs from the whole"""
+    Val, _SV, _Alg = _classes()
+    if not _OVERHEAD:
+        _OVERHEAD.append(len(pickle.dumps(Val(b'\0' * 70000), pickle.HIGHEST_PROTOCOL)) - 70000)
+    n = total - _OVERHEAD[0]
+    d = (bytes(range(251)) * (n // 251 + 1))[:n]
+    assert len(pickle.dumps(Val(d), pickle.HIGHEST_PROTOCOL)) == total
+    return d
 
 
 def metric_cid(n):
@@ -584,11 +605,14 @@ def observe(env):
     return {'store': store, 'stage': stage, 'prime': prime}
 
 
+def digest_name(content):
+    """the name the store gives to `content`: <md5>_<sha1> of the WHOLE file, recomputed here with hashlib,
+    independently of whatever the code under test used to compute it"""
+    return hashlib.md5(content).hexdigest() + '_' + hashlib.sha1(content).hexdigest()
+
+
 def is_digest_name(name, content):
-    """`name` is made of hex digests of `content` (the shipped format is md5_sha1)"""
-    digests = {hashlib.new(a, content).hexdigest() for a in ('md5', 'sha1', 'sha224', 'sha256', 'sha384', 'sha512')}
-    parts = [p for p in str(name).replace('-', '_').split('_') if p]
-    return bool(parts) and all(p.lower() in digests for p in parts)
+    return str(name) == digest_name(content)
 
 
 # ------------------------------------------------------------------ analysis of one executed segment
@@ -705,7 +729,9 @@ def monitor(res, events, rc, obs, crashes_so_far, replay):
     # every stored file hashes to its own name
     for fn, b in store.items():
         if not is_digest_name(fn, b):
-            res.hit('C07:name-not-digest', f'stored file {fn[:24]}.. does not hash to its own name{at}', replay)
+            res.hit('C07:name-not-digest',
+                    f'stored file {fn[:20]}..{fn[-12:]} ({len(b)} bytes) does not hash to its own name: md5_sha1 of '
+                    f'the whole file is {digest_name(b)[:20]}..{digest_name(b)[-12:]}{at}', replay)
     # identical content is kept once
     seen = {}
     for fn, b in store.items():
@@ -929,7 +955,7 @@ def gen_history(r, size):
         if x < 0.62 or not written:
             op = {'kind': 'update', 'run': r.choice([1, 1, 2, 3]), 'target': r.choice(targets),
                   'task': r.choice(tasks), 'alg': r.choice(algs), 'svs': []}
-            pool = r.choice([[1, 2], [2, 3, 4], [5, 5, 6], [1, 7], [2, 8, 8, 3]])
+            pool = r.choice([[1, 2], [2, 3, 4], [5, 5, 6], [1, 7], [2, 8, 8, 3]] * 4 + [[2, 12], [10, 3, 3]])
             for svn in r.sample(['S1', 'Q2'], r.choice([1, 1, 2])):
                 vals = [[vn, r.choice(pool)] for vn in r.sample(['v1', 'w2', 'u3'], r.choice([1, 2, 2, 3]))]
                 op['svs'].append([svn, vals])
@@ -955,6 +981,10 @@ def upd(run, target, task, alg, svs):
 
 
 CORPUS = [
+    # serialisations of 1 MiB + 1 and 2 MiB + 3 bytes under two keys, the first again in a later run (not new),
+    # next to 1 MiB - 1: block-wise digests, copies and torn writes see more than one block
+    [upd(1, 'T1', 'tk1', 'A1', [['S1', [['v1', 10], ['w2', 11]]]]),
+     upd(2, 'T1', 'tk1', 'A1', [['S1', [['v1', 10], ['u3', 9]]]])],
     # same content under two keys of one update, then again in another run
     [upd(1, 'T1', 'tk1', 'A1', [['S1', [['v1', 2], ['w2', 2]]]]), upd(2, 'T1', 'tk1', 'A1', [['S1', [['v1', 2]]]])],
     # overwrite one key with new content, then with the old content again
@@ -997,7 +1027,7 @@ def run(ctx, res):
     _prepare()
     r = common.rng(ctx['seed'], 'C07')
     thorough = ctx['tier'] == 'thorough' or ctx['escalate']
-    res.rule = ('histories of Interface._update/_update_msv, remove and purge.py with contents from a pool of 8 '
+    res.rule = ('histories of Interface._update/_update_msv, remove and purge.py with contents from a pool of 12 (four of them serialise to 1 MiB-1, 1 MiB, 1 MiB+1, 2 MiB+3 bytes) '
                 '(+ metric values) across runs/targets/tasks/algorithms; per history one execution on real '
                 'dbm files and directories during which the disk is copied in front of EVERY intercepted '
                 'file-system/table/wire call (what a process killed there leaves; each pickle.dump also torn), '
